@@ -868,6 +868,7 @@ def main(ck: Check):
         proved = ck.prove("Simaple.Props.C19")
         if ck.tier == "thorough" and proved:
             ck.leanchecker(["Simaple.Props.C19"])
+            ck.leanchecker(["Simaple.Proofs.Targets", "Simaple.Props.C19_Targets"])      # part "Targets"
         t_prove = ck.elapsed()
         res = ck.driver(reqs, timeout=max(120.0, ck.time_left() + 240))
         tgt.correspond(ck.driver(tgt.reqs, timeout=max(120.0, ck.time_left() + 240)))      # part "Targets"
@@ -1023,7 +1024,7 @@ def main(ck: Check):
                             "Mathlib linarith/nlinarith/norm_num",
                             "hand-written model Simaple.Model.Optimizer (validated by the recorded-oracle replay in this run)",
                             "CPython float comparison of recorded answers ~ exact rationals"],
-              checker_cmd="cd lean && lake build Simaple.Props.C19 && lake env lean Simaple/Audit/C19.lean")
+              checker_cmd="cd lean && lake build Simaple.Props.C19 Simaple.Props.C19_Targets && lake env lean Simaple/Audit/C19.lean")
 
 
 if __name__ == "__main__":
